@@ -312,6 +312,7 @@ pub fn hull_side(sp: &ScaledPoints, set: &[usize], q: usize) -> HullSide {
     let d = sp.dim;
     let mut outside = false;
     let mut on_boundary = false;
+    let mut supporting_found = false;
     for_each_subset(set.len(), d, |s| {
         let facet: Vec<usize> = s.iter().map(|&i| set[i]).collect();
         // supporting?
@@ -334,6 +335,7 @@ pub fn hull_side(sp: &ScaledPoints, set: &[usize], q: usize) -> HullSide {
         if !pos && !neg {
             return true; // degenerate facet (points not affinely independent) or flat set
         }
+        supporting_found = true;
         let sq = sp.side(&facet, q);
         if sq == 0 {
             on_boundary = true;
@@ -345,7 +347,8 @@ pub fn hull_side(sp: &ScaledPoints, set: &[usize], q: usize) -> HullSide {
     });
     if outside {
         HullSide::StrictlyOutside
-    } else if on_boundary {
+    } else if on_boundary || !supporting_found {
+        // a flat point set has no supporting hyperplane spanned by D of its points: undecided
         HullSide::OnBoundary
     } else {
         HullSide::StrictlyInside
@@ -467,5 +470,61 @@ mod tests {
         });
         assert_eq!(c, 35);
         assert_eq!(binom(14, 6), 3003);
+    }
+}
+
+#[cfg(test)]
+mod bigtests {
+    use super::*;
+    #[test]
+    fn big_coordinates_consistency() {
+        // simplex with huge coordinates and a sample with a tiny coordinate: hull_side and
+        // in_closed_simplex must agree for a single simplex
+        let s = 17592186044416.0f64;
+        let pts = vec![
+            vec![1.0 * s, 1.0 * s, 0.0, 0.0, 4.0 * s],
+            vec![2.0 * s, 3.0 * s, 2.0 * s, 2.0 * s, 3.0 * s],
+            vec![2.0 * s, 4.0 * s, 4.0 * s, 2.0 * s, 4.0 * s],
+            vec![3.0 * s, 4.0 * s, 3.0 * s, 1.0 * s, 2.0 * s],
+            vec![4.0 * s, 0.0, 0.0, 2.0 * s, 3.0 * s],
+            vec![3.0 * s, 1.0 * s, 1.0 * s, 4.0 * s, 4.0 * s],
+            vec![43980465111040.0, 26388279066624.0, 0.0003255208333333333, 17592186044416.0, 70368744177664.0],
+        ];
+        let sp = ScaledPoints::new(&pts);
+        let idx: Vec<usize> = (0..6).collect();
+        let inside = sp.in_closed_simplex(&idx, 6);
+        let hs = hull_side(&sp, &idx, 6);
+        println!("{inside:?} {hs:?} {:?}", sp.barycentric_signs(&idx, 6));
+        // translation invariance of orientation with small integer version
+        let small: Vec<Vec<f64>> = pts[..6].iter().map(|p| p.iter().map(|x| x / s).collect()).collect();
+        let sps = ScaledPoints::new(&small);
+        assert_eq!(sps.orient(&idx), sp.orient(&idx));
+        assert_eq!(inside == Some(true), hs != HullSide::StrictlyOutside);
+    }
+}
+
+#[cfg(test)]
+mod bigtests2 {
+    use super::*;
+    #[test]
+    fn orient_invariant_under_extra_point() {
+        let pts = vec![
+            vec![17592186044416.0, 17592186044416.0, 0.0, 0.0, 70368744177664.0],
+            vec![17592186044416.0, 52776558133248.0, 52776558133248.0, 52776558133248.0, 52776558133248.0],
+            vec![52776558133248.0, 35184372088832.0, 0.0, 0.0, 70368744177664.0],
+            vec![70368744177664.0, 35184372088832.0, 0.0, 35184372088832.0, 70368744177664.0],
+            vec![35184372088832.0, 52776558133248.0, 35184372088832.0, 35184372088832.0, 52776558133248.0],
+            vec![35184372088832.0, 70368744177664.0, 70368744177664.0, 35184372088832.0, 70368744177664.0],
+        ];
+        let a = ScaledPoints::new(&pts);
+        let mut more = pts.clone();
+        more.push(vec![43980465111040.0, 26388279066624.0, 0.0003255208333333333, 17592186044416.0, 70368744177664.0]);
+        let b = ScaledPoints::new(&more);
+        let idx = [1usize, 0, 2, 3, 4, 5];
+        println!("a.exp={} b.exp={} small a {:?} b {:?}", a.exp, b.exp, a.small.is_some(), b.small.is_some());
+        let da = a.orient_det(&idx);
+        let db = b.orient_det(&idx);
+        println!("da bits {} sign {} ; db bits {} sign {}", da.bit_length(), da.signum(), db.bit_length(), db.signum());
+        assert_eq!(da.signum(), db.signum());
     }
 }
